@@ -351,6 +351,8 @@ def opVerb (req : Json) : Json :=
     | "Rot13" => some .rot13
     | "PutAfter" => some (.putSpan true)
     | "PutBefore" => some (.putSpan false)
+    | "OpenLineAfter" => some (.openLine true)
+    | "OpenLineBefore" => some (.openLine false)
     | "InsertChar" => some (.insertChar (charOf va[1]?))
     | "ReplaceChar" => some (.replaceChar (charOf va[1]?))
     | "ToggleCaseInplace" => some (.toggleInplace (n 1))
